@@ -130,8 +130,11 @@ async fn f5_short_id_panics() {
     let bytes = message_with_entries(&x, &x, &[e], true);
     let msg: Result<ProtocolMessage, _> = postcard::from_bytes(&bytes);
     println!("F5 decode ok = {}", msg.is_ok());
+    // a value or an error, never a panic: either the decoder rejects the short id ...
+    let Ok(msg) = msg else { return };
+    // ... or processing it must not panic
     let mut st = SyncOutcome::default();
-    let res = r.sync_process_message(msg.unwrap(), peer, &mut st).await;
+    let res = r.sync_process_message(msg, peer, &mut st).await;
     println!("F5 processed without panic: {:?}", res.map(|m| m.is_some()));
 }
 
